@@ -1,6 +1,7 @@
 """C11 — IdMatching.tla bound to get_object_results for ROI-less 2-D objects and the classification scores (engines M, R, T)."""
 from __future__ import annotations
 
+import json
 import os
 import random
 
@@ -14,15 +15,32 @@ INV = ["LawStructure", "LawMaximal", "LawScores", "LawSomeOutcome"]
 GENERIC = {"green": "car", "red": "pedestrian", "unknown": "unknown"}
 
 
-def build(objs, family, score):
+def tl_names(rot):
+    """the specification's two ordinary traffic-light labels stand for ANY two different ones: pair number `rot` of the declared label names
+    (neighbours in the declaration: red_left / red_left_straight, the two diagonals, ...)"""
+    from perception_eval.common.label import TrafficLightLabel
+
+    names = [n.lower() for n in TrafficLightLabel.__members__ if n.lower() not in ("unknown", "fp", "false_positive", "traffic_light")]     # (traffic_light is the detection class, no classification label)
+    a, b = names[rot % len(names)], names[(rot + 1) % len(names)]
+    return {"green": a, "red": b, "unknown": "unknown"}
+
+
+def rot_of(ests, gts):
+    import zlib
+
+    return zlib.crc32(json.dumps([ests, gts], sort_keys=True, default=str).encode()) % 97
+
+
+def build(objs, family, score, rot=None):
     from perception_eval.common.object2d import DynamicObject2D
     from perception_eval.common.schema import FrameID
 
     from ..build import aw_label, tl_label
 
     out = []
+    ren = tl_names(rot) if (family == "tlr" and rot is not None) else {}
     for i, o in enumerate(objs):
-        lab = tl_label(o["label"]) if family == "tlr" else aw_label(GENERIC[o["label"]])
+        lab = tl_label(ren.get(o["label"], o["label"])) if family == "tlr" else aw_label(GENERIC[o["label"]])
         ob = DynamicObject2D(unix_time=1000, frame_id=FrameID.from_value(o["cam"]), semantic_score=score, semantic_label=lab, roi=None, uuid=o["uuid"])
         ob._verif_id = i + 1
         out.append(ob)
@@ -47,7 +65,8 @@ def replay(arg):
     from ..build import AW, TL, vid
 
     family, ests, gts, uuid_first, out = arg
-    re_, rg = build(ests, family, 0.9), build(gts, family, 1.0)
+    rot = rot_of(ests, gts)
+    re_, rg = build(ests, family, 0.9, rot), build(gts, family, 1.0, rot)
     re0, rg0 = list(re_), list(rg)
     rep = {"family": family, "ests": ests, "gts": gts, "uuid_first": uuid_first, "spec_outcomes": [sorted(map(list, o)) for o in out["outcomes"]]}
     mism = []
@@ -131,9 +150,11 @@ def replay_manager(arg):
     family, ests, gts, uuid_first, out = arg
     if not ests or not gts:
         return 0, []
+    rot = rot_of(ests, gts) if family == "tlr" else None
     rep = {"family": family, "ests": ests, "gts": gts, "uuid_first": uuid_first, "through": "PerceptionEvaluationManager(classification2d)"}
-    key = (family, uuid_first)
-    labels = ["green", "red", "unknown"] if family == "tlr" else ["car", "pedestrian", "unknown"]
+    key = (family, uuid_first, rot)
+    labels = [tl_names(rot)[x] for x in ("green", "red", "unknown")] if family == "tlr" else ["car", "pedestrian", "unknown"]
+    rep["labels"] = labels
     try:
         if key not in _MGR:
             tmp = tempfile.mkdtemp(prefix="verif_cls_")
@@ -152,7 +173,7 @@ def replay_manager(arg):
         mism = []
         outcomes = {frozenset(tuple(p) for p in o) for o in out["outcomes"]}
         for k in range(2):
-            re_, rg = build(ests, family, 0.9), build(gts, family, 1.0)
+            re_, rg = build(ests, family, 0.9, rot), build(gts, family, 1.0, rot)
             fr = mgr.add_frame_result(1000 * (k + 1), FrameGroundTruth(unix_time=1000 * (k + 1), frame_name=str(k), objects=rg), re_, crit, pfc)
             got = frozenset((vid(r.estimated_object), vid(r.ground_truth_object) if r.ground_truth_object is not None else 0) for r in fr.object_results)
             if got not in outcomes:
